@@ -48,7 +48,7 @@ func (o EngOp) String() string {
 		return fmt.Sprintf("put(%q)", o.Key)
 	case "del":
 		return fmt.Sprintf("del(%q)", o.Key)
-	case "txc", "txr":
+	case "txc", "txr", "txa", "txclosed":
 		var s []string
 		for _, x := range o.Sub {
 			s = append(s, x.String())
@@ -110,6 +110,11 @@ func (r *EngRun) val(o EngOp) []byte {
 		if o.Val == "<nil>" {
 			return nil
 		}
+		if strings.HasPrefix(o.Val, "<big:") {
+			var n int
+			fmt.Sscanf(o.Val, "<big:%d>", &n)
+			return bytes.Repeat([]byte{byte('a' + r.Step%26)}, n)
+		}
 		return []byte(o.Val)
 	}
 	return []byte(fmt.Sprintf("v%d", r.Step))
@@ -134,7 +139,7 @@ func (r *EngRun) Apply(o EngOp) error {
 		if err = r.Eng.Delete([]byte(o.Key)); err == nil {
 			delete(r.Model, o.Key)
 		}
-	case "txc", "txr":
+	case "txc", "txr", "txa", "txclosed":
 		tx, berr := r.Eng.BeginTransaction(false)
 		if berr != nil {
 			err = berr
@@ -173,6 +178,23 @@ func (r *EngRun) Apply(o EngOp) error {
 				delete(tmp, s.Key)
 				dels[s.Key] = true
 			}
+		}
+		if o.Kind == "txa" {
+			// abandoned: never finished (keeps the transaction lock; only non-transactional calls may follow)
+			break
+		}
+		if o.Kind == "txclosed" {
+			// commit after the engine was closed: must fail and leave no trace
+			r.Eng.Close()
+			if cerr := tx.Commit(); cerr == nil {
+				err = errors.New("commit on a closed engine reported success")
+			}
+			e, oerr := engine.NewEngineFacade(r.Dir)
+			if oerr != nil {
+				return fmt.Errorf("%w: %v", errReopen, oerr)
+			}
+			r.Eng = e
+			break
 		}
 		if o.Kind == "txc" {
 			if cerr := tx.Commit(); cerr != nil {
